@@ -982,7 +982,9 @@ func (p *InlineParser) parseInlineLink(state *inlineState, start int) (result in
 		},
 	}
 	result.destination = parseLinkDestination(r)
+	titleAllowed := true
 	if result.destination.span.IsValid() {
+		destinationEnd := r.pos
 		if !skipLinkSpace(r) {
 			return inlineLinkInfo{
 				span: NullSpan(),
@@ -996,8 +998,13 @@ func (p *InlineParser) parseInlineLink(state *inlineState, start int) (result in
 				},
 			}
 		}
+		// A title must be separated from the destination by white space.
+		titleAllowed = r.pos > destinationEnd
 	}
-	result.title = parseLinkTitle(r)
+	result.title = linkTitle{span: NullSpan(), text: NullSpan()}
+	if titleAllowed {
+		result.title = parseLinkTitle(r)
+	}
 	if result.title.span.IsValid() {
 		if !skipLinkSpace(r) {
 			return inlineLinkInfo{
